@@ -337,6 +337,25 @@ def class_test(prog: Program, f: Func, c: ast.AST, cls_qn: str) -> ast.AST | Non
     return None
 
 
+def class_test_extras(prog: Program, f: Func, c: ast.AST, cls_qn: str) -> list[str]:
+    """For `isinstance(x, K)` / `isinstance(x, (K1, K2, ..))`: the classes named in the second
+    argument that are not provably `cls_qn` or one of its subclasses (source text; unresolvable
+    names count as extras).  `class_test` accepts a tuple that merely *contains* `cls_qn`; a rule
+    that needs the test to mean "is a `cls_qn`" and nothing wider must also get [] from here.
+    [] for anything that is not an isinstance call."""
+    if not (isinstance(c, ast.Call) and is_name(c.func, "isinstance") and len(c.args) == 2):
+        return []
+    k = c.args[1]
+    ks = k.elts if isinstance(k, (ast.Tuple, ast.List)) else [k]
+    out = []
+    for x in ks:
+        d = dotted(x)
+        q = prog.resolve_dotted(f.module, d) if d else None
+        if q is None or q not in prog.classes or not prog.is_subclass(q, cls_qn):
+            out.append(unparse(x))
+    return out
+
+
 def termination_subject(prog: Program, f: Func, c: ast.AST) -> ast.AST | None:
     """Subject of a termination-token test: `check_termination(x)` or
     `isinstance(x, TerminationToken)`."""
